@@ -136,6 +136,16 @@ def persistent_state_sites(model: Model) -> List[Site]:
                     base, how = n.targets[0].value, "item store"
                 if isinstance(base, ast.Attribute) and isinstance(base.value, ast.Name) and base.value.id in (selfn, fi.cls.name, "cls") and base.attr in shared:
                     out.append(Site(fi, stmt_of(n) if isinstance(n, ast.Call) else n, f"{fi.cls.name}.{base.attr}", f"{how} on a class-level container shared by all instances"))
+        # mutable default arguments that are mutated, or that escape into something that outlives the call
+        if not isinstance(fi.node, ast.Lambda):
+            a_ = fi.node.args
+            pos_ = a_.posonlyargs + a_.args
+            pairs_ = list(zip(pos_[len(pos_) - len(a_.defaults):], a_.defaults)) + [(x, d) for x, d in zip(a_.kwonlyargs, a_.kw_defaults) if d is not None]
+            for arg_, dflt_ in pairs_:
+                if _is_mutable_ctor(dflt_):
+                    why = _default_escapes(model, fi, arg_.arg, 3, set())
+                    if why is not None:
+                        out.append(Site(fi, why[0], f"{fi.qual}({arg_.arg}={ast.unparse(dflt_)})", f"mutable default argument {why[1]}"))
         # memoisation
         for d in fi.decorators:
             if d in CACHE_DECORATORS:
@@ -146,6 +156,157 @@ def persistent_state_sites(model: Model) -> List[Site]:
                 for t in n.targets:
                     if isinstance(t, ast.Attribute) and isinstance(t.value, ast.Name) and t.value.id in fi.pos_params[(1 if fi.cls is not None else 0):] and t.attr.startswith("_") and t.attr not in NODE_ATTRS_OWNED:
                         out.append(Site(fi, n, f"<{t.value.id}>.{t.attr}", "memo attribute written on an argument object"))
+    return out
+
+
+_READ_ONLY_CALLS = {"len", "dict", "list", "set", "tuple", "frozenset", "sorted", "sum", "any", "all", "min", "max", "enumerate", "zip", "iter", "reversed", "isinstance", "bool", "str", "repr", "id", "type", "print"}
+_READ_ONLY_METHODS = {"get", "keys", "values", "items", "copy", "index", "count", "__contains__"}
+
+
+def _default_escapes(model: Model, fi: FuncInfo, pname: str, depth: int, seen) -> Optional[Tuple[ast.AST, str]]:
+    """(statement, description) if the object bound to parameter pname may be mutated by fi, or stored somewhere that
+    outlives the call (a constructed node, an attribute, a container that is kept) - directly or in a package function
+    it is passed to.  Reads (iteration, len, `in`, `|`, copies) are fine; a helper that hands the object back makes
+    its result another name for it in the caller."""
+    issues = _param_uses(model, fi, pname, depth, seen)
+    bad = [x for x in issues if x[2] != "returned"]
+    if bad:
+        return bad[0][0], bad[0][1]
+    # at the top level, returning the default object itself hands the one shared object to every caller
+    ret = [x for x in issues if x[2] == "returned"]
+    return (ret[0][0], ret[0][1]) if ret else None
+
+
+def _param_uses(model: Model, fi: FuncInfo, pname: str, depth: int, seen) -> List[Tuple[ast.AST, str, str]]:
+    from .model import parent as _parent
+
+    if (fi.qual, pname) in seen or depth < 0:
+        return []
+    seen = seen | {(fi.qual, pname)}
+    out: List[Tuple[ast.AST, str, str]] = []
+
+    def _holder(x):
+        """the outermost container literal that x is an element of (x itself if none)"""
+        while isinstance(_parent(x), (ast.List, ast.Tuple, ast.Set, ast.Dict, ast.Starred)):
+            x = _parent(x)
+        return x
+
+    def _callee_of(call: ast.Call):
+        f = call.func
+        if isinstance(f, ast.Name):
+            tgt = model.lookup_target(model.resolve_dotted(fi.module, fi, f.id))
+            return (tgt, 0) if isinstance(tgt, FuncInfo) else None
+        if isinstance(f, ast.Attribute) and isinstance(f.value, ast.Name) and fi.cls is not None and fi.pos_params and f.value.id == fi.pos_params[0]:
+            g = model.find_method(fi.cls, f.attr)
+            if g is not None:
+                return g, (0 if "staticmethod" in g.decorators else 1)
+        return None
+
+    names = {pname}
+    values: List[ast.AST] = []  # expressions that evaluate to (something holding) the object
+    changed = True
+    passes: Dict[int, List] = {}
+    while changed:
+        changed = False
+        values = [n for n in own_nodes(fi) if isinstance(n, ast.Name) and n.id in names and isinstance(n.ctx, ast.Load)]
+        # results of helpers that hand the object back
+        for v in list(values):
+            h = _holder(v)
+            par_ = _parent(h)
+            call = None
+            if isinstance(par_, ast.Call) and h in par_.args:
+                call, kw, idx = par_, None, par_.args.index(h)
+            elif isinstance(par_, ast.keyword):
+                call, kw, idx = _parent(par_), par_.arg, None
+            if call is None:
+                continue
+            got = _callee_of(call)
+            if got is None:
+                continue
+            g, skip = got
+            cp = kw if kw is not None else (g.pos_params[skip:][idx] if idx is not None and idx < len(g.pos_params[skip:]) else None)
+            if cp is None:
+                continue
+            sub = passes.get(id(call))
+            if sub is None:
+                sub = _param_uses(model, g, cp, depth - 1, seen)
+                passes[id(call)] = sub
+            if any(x[2] == "returned" for x in sub):
+                values.append(call)
+        for v in values:
+            h = _holder(v)
+            par_ = _parent(h)
+            if isinstance(par_, ast.Assign) and par_.value is h:
+                for t in par_.targets:
+                    if isinstance(t, ast.Name) and t.id not in names:
+                        names.add(t.id)
+                        changed = True
+    for n0 in values:
+        n = _holder(n0)
+        par = _parent(n)
+        st = stmt_of(n0)
+        if isinstance(par, ast.Attribute) and par.value is n:
+            gp = _parent(par)
+            if isinstance(gp, ast.Call) and gp.func is par:
+                if par.attr in MUTATORS:
+                    out.append((st, f"is mutated (.{par.attr}())", "mutated"))
+                continue
+            if isinstance(par.ctx, (ast.Store, ast.Del)):
+                out.append((st, "has an attribute written", "mutated"))
+            continue
+        if isinstance(par, ast.Subscript) and par.value is n:
+            if isinstance(par.ctx, (ast.Store, ast.Del)):
+                out.append((st, "is mutated (item store)", "mutated"))
+            continue
+        if isinstance(par, ast.AugAssign) and par.target is n:
+            out.append((st, "is mutated (augmented assignment)", "mutated"))
+            continue
+        if isinstance(par, ast.IfExp) and par.test is not n:
+            gp = _parent(par)
+            if isinstance(gp, (ast.Return, ast.Yield)):
+                out.append((st, "is returned", "returned"))
+            elif not (isinstance(gp, ast.Assign) and all(isinstance(t, ast.Name) for t in gp.targets)):
+                out.append((st, "may be stored through a conditional expression", "stored"))
+            continue
+        if isinstance(par, (ast.BinOp, ast.Compare, ast.BoolOp, ast.UnaryOp, ast.If, ast.IfExp, ast.While, ast.For, ast.comprehension, ast.Assert, ast.Starred, ast.FormattedValue, ast.Expr)):
+            continue
+        if isinstance(par, ast.Assign) and par.value is n:
+            if all(isinstance(t, ast.Name) for t in par.targets):
+                continue  # alias, followed above
+            out.append((st, "is stored in an attribute / container", "stored"))
+            continue
+        if isinstance(par, (ast.Return, ast.Yield)):
+            out.append((st, "is returned", "returned"))
+            continue
+        if isinstance(par, ast.keyword):
+            par_call, kwname, idx = _parent(par), par.arg, None
+        elif isinstance(par, ast.Call) and n in par.args:
+            par_call, kwname, idx = par, None, par.args.index(n)
+        else:
+            continue
+        f = par_call.func
+        fname = f.id if isinstance(f, ast.Name) else (f.attr if isinstance(f, ast.Attribute) else None)
+        if isinstance(f, ast.Name) and fname in _READ_ONLY_CALLS:
+            continue
+        if isinstance(f, ast.Attribute) and fname in _READ_ONLY_METHODS:
+            continue
+        got = _callee_of(par_call)
+        if got is not None:
+            callee, skip = got
+            cp = kwname if kwname is not None else (callee.pos_params[skip:][idx] if idx is not None and idx < len(callee.pos_params[skip:]) else None)
+            if cp is None and idx is not None and getattr(callee.node.args, "vararg", None) is not None:
+                cp = callee.node.args.vararg.arg  # lands in *args: followed as the tuple that holds it
+            if cp is None:
+                out.append((st, f"is passed to {callee.name} in a way that cannot be followed", "stored"))
+                continue
+            sub = passes.get(id(par_call))
+            if sub is None:
+                sub = _param_uses(model, callee, cp, depth - 1, seen)
+            for _s, why, kind in sub:
+                if kind != "returned":
+                    out.append((st, f"is passed to {callee.name}, where it {why}", kind))
+            continue
+        out.append((st, f"is handed to {ast.unparse(f)}(..), which may keep it (a constructed node / object holds the one shared default object)", "stored"))
     return out
 
 
